@@ -130,7 +130,7 @@ def _handle_body(ctx, case):
     else:
         with ctx.sut("function_handle-complex"):
             d = H.complex_step(fh, x, m)
-        tol = 64 * EPS * sg
+        tol = 64 * EPS * sg + 1e-300
     d = np.asarray(d, dtype=float)
     xr, gr, dr, tr, mr = np.ravel(x), np.ravel(g), np.ravel(d), np.ravel(tol), np.ravel(m)
     for i in range(xr.size):
@@ -142,7 +142,9 @@ def _handle_body(ctx, case):
         with ctx.sut("handles-elementwise"):
             fe = np.array([float(fh(np.array(a_), np.array(b_))) for a_, b_ in zip(xr, mr)])
             ge = np.array([float(gh(np.array(a_), np.array(b_))) for a_, b_ in zip(xr, mr)])
-        ctx.check(np.array_equal(fe, np.ravel(f)) and np.array_equal(ge, np.ravel(g)), "handles-are-elementwise")
+        # (the vectorised and the scalar code paths of numpy's pow/log/exp may differ in the last bits)
+        ctx.check(H.within(fe, np.ravel(f), 16 * EPS * np.ravel(H.scale_f(name, x, m, p)) + 1e-300)
+                  and H.within(ge, np.ravel(g), 16 * EPS * np.ravel(sg) + 1e-300), "handles-are-elementwise")
 
 
 for _name in H.LOSS_NAMES:
@@ -158,7 +160,7 @@ for _name in H.LOSS_NAMES:
 def _evaluate_case(draw, tier, holders):
     c = draw(H.problem(tier, holders=holders))
     r = c["rank"]
-    dv = st.one_of(st.integers(-2, 2).map(float), st.floats(-1.0, 1.0))
+    dv = st.one_of(st.integers(-2, 2).map(float), H.sfloats(0.01, 1.0))
     c["dirs"] = [draw(st.lists(st.lists(dv, min_size=r, max_size=r), min_size=n, max_size=n)) for n in c["shape"]]
     return c
 
@@ -355,7 +357,8 @@ def mttkrps(ctx, case):
             ok_def = ref.same_bound(V[k], want, bound, n * N)
             ok_one = ref.same_bound(V[k], one, bound, 2 * n * N)
         ctx.check(ok_one, "mttkrps-equals-per-mode-mttkrp", f"mode {k} of {shape}: {ref.diff_info(V[k], one)}")
-        ctx.check(ok_def, "mttkrps-equals-definition", f"mode {k} of {shape}: {ref.diff_info(V[k], want)}")
+        if unit:  # (for a ktensor with non-unit weights only the documented equivalence with mttkrp is asserted)
+            ctx.check(ok_def, "mttkrps-equals-definition", f"mode {k} of {shape}: {ref.diff_info(V[k], want)}")
 
 
 # --------------------------------------------------------------------------
@@ -421,7 +424,7 @@ def _estimate_samples_case(draw, tier):
     rank = draw(st.integers(1, 4))
     factors = draw(H.factors_for(name, shape, rank))
     ncells = ref.prod(shape)
-    size = draw(st.sampled_from(["empty", "one", "few", "few", "many", "many"]))
+    size = draw(st.sampled_from(["empty"] + ["one"] * 2 + ["few"] * 5 + ["many"] * 4))
     ns = {"empty": 0, "one": 1}.get(size)
     if ns is None:
         ns = draw(st.integers(2, max(2, ncells))) if size == "few" else draw(st.integers(ncells, 3 * ncells))
